@@ -65,6 +65,12 @@ def deviations(g):
         add("state %d transitions an int" % s, lambda x, s=s: x["transition_list"].__setitem__(s, 5))
         add("state %d transitions 0" % s, lambda x, s=s: x["transition_list"].__setitem__(s, 0))
         add("state %d transitions a list of lists" % s, lambda x, s=s: x["transition_list"].__setitem__(s, [list(t) for t in x["transition_list"][s]]))
+        for t in range(n):
+            # the SAME list object as another state's row, where that row is not legal for this kind of state (a probabilistic row on a
+            # player state or the other way round): whatever validation did for the first occurrence of the object must be done again
+            if t != s and (g["players"][s] == PR) != (g["players"][t] == PR):
+                add("state %d transitions the same list object as state %d" % (s, t),
+                    lambda x, s=s, t=t: x["transition_list"].__setitem__(s, x["transition_list"][t]))
         for k in range(len(row)):
             for v in (-1, n, n + 5, 1.0, "1", None):
                 add("successor %r at state %d transition %d" % (v, s, k),
@@ -404,8 +410,8 @@ def run(ctx):
     pair_bases = 24 if ctx.thorough else 8
     shards = [{"bases": B, "lo": i, "hi": i + 1, "pairs": True, "pair_bases": pair_bases} for i in range(len(B))]
     tot = par.run_shards(work, shards, ctx.jobs)
-    if tot["single"] < 1000:
-        raise par.HarnessError("C09 vacuity guard: %d single deviations" % tot["single"])
+    if not tot.get("violations") and tot["single"] < 1000:
+        raise par.GuardError("C09 vacuity guard: %d single deviations" % tot["single"])
     cov = {"states": tot["games"], "transitions": tot["executions"], "traces_validated_against_impl": tot["games"],
            "evaluations": tot["games"], "distinct_nontrivial": tot["games"], "bases": tot["bases"],
            "single_deviations": tot["single"], "deviation_pairs": tot["pairs"],
